@@ -15,10 +15,11 @@ class Ctx:
         """budget of this process: the quick budget, or its share of the thorough one (also used for the failing-input search)"""
         if self.quick and not full:
             return quick
-        return max(quick if self.shards > 1 else 1, -(-thorough // self.shards))
+        return max(quick if self.shards > 1 else 1, -(-(thorough * THOROUGH_SCALE) // self.shards))
 
 
 WORKERS = max(1, min(14, (os.cpu_count() or 2) - 2))
+THOROUGH_SCALE = int(os.environ.get('VERIF_THOROUGH_SCALE', '6'))      # the thorough budgets in props/*.py are multiplied by this
 
 
 def _worker(args):
